@@ -95,6 +95,26 @@ def gen_dotted_circle_average(rng, tier):
             "other_func": "compileOTF" if func == "compileTTF" else "compileTTF", "tier": tier}
 
 
+def gen_flagged_components(rng, tier):
+    """Dedicated stratum of the listed finding inplace_changes_component_flags_...: a chain
+    c -> b -> a whose components carry identifiers, TrueType component flags on c's component,
+    compiled with flattenComponents=True."""
+    tri = [[[0, 0, "line"], [100, 0, "line"], [50, 80, "line"]]]
+    glyphs = [
+        {"name": "a", "width": 500, "unicodes": [0x61], "contours": tri, "components": [], "anchors": []},
+        {"name": "b", "width": 500, "unicodes": [], "contours": [], "anchors": [],
+         "components": [{"base": "a", "t": [1, 0, 0, 1, 10, 0], "id": "b.c0"}]},
+        {"name": "c", "width": 500, "unicodes": [], "contours": [], "anchors": [],
+         "components": [{"base": "b", "t": [1, 0, 0, 1, 0, 20], "id": "c.c0"}],
+         "lib": {"public.objectLibs": {"c.c0": {"public.truetype.roundOffsetToGrid": False,
+                                                "public.truetype.useMyMetrics": True}}}}]
+    ufo = {"glyphs": glyphs, "kerning": [], "groups": {}, "features": "", "lib": {},
+           "glyphOrder": [g["name"] for g in glyphs],
+           "info": {"unitsPerEm": 1000, "familyName": "T", "styleName": "R"}}
+    return {"kind": "outline", "ufo": ufo, "func": "compileTTF", "opts": {"flattenComponents": True},
+            "per_lib": False, "other_func": "compileOTF", "tier": tier}
+
+
 def gen_case_pairs(rng, tier):
     """Glyph names that differ in case only (a / A, v / V ...), none of them in the stored glyph
     order: whatever orders the unlisted glyphs must be a total order of the NAMES - anything
@@ -163,6 +183,8 @@ def gen(rng, idx, tier):
         return gen_case_pairs(rng, tier)
     if idx == len(FIXTURES) + 2:
         return gen_dotted_circle_average(rng, tier)
+    if idx == len(FIXTURES) + 3:
+        return gen_flagged_components(rng, tier)
     r = rng.random()
     if r < 0.3:
         ds = masters.family(rng, n_glyphs=rng.choice([4, 6]), missing_glyph=False,
@@ -293,6 +315,16 @@ def gen(rng, idx, tier):
                 simple[0]["anchors"] = [{"name": "top", "x": 200, "y": 600}]
         lib = {"com.github.googlei18n.ufo2ft.filters": [
             {"name": "propagateAnchors", "pre": True}, {"name": "sortContours"}]}
+        if rng.random() < 0.25:
+            # UFO 3 identifiers on components + per-component TrueType flags in the glyph lib
+            for g in glyphs:
+                for k_, c_ in enumerate(g["components"]):
+                    c_["id"] = "%s.c%d" % (g["name"], k_)
+                if g["components"] and rng.random() < 0.6:
+                    g.setdefault("lib", {})["public.objectLibs"] = {
+                        g["components"][0]["id"]: {
+                            "public.truetype.roundOffsetToGrid": rng.random() < 0.5,
+                            "public.truetype.useMyMetrics": rng.random() < 0.5}}
         if simple and rng.random() < 0.3:
             # anchors that the writers turn into GDEF carets and cursive records, on glyphs that
             # a filter of the user's moves: the tables must be built from the moved anchors
@@ -489,7 +521,29 @@ def classify(v, case):
         # the built-in conversion writes / consults the curve-type marker only when in place:
         # the second of the two conversions runs (and reverses the contours again) otherwise
         return "inplace_changes_output_with_user_cu2qu_filter_that_remembers"
+    if (v["mech"] == "digest_differs" and variant.endswith("/inplace") and case.get("func") == "compileTTF"
+            and _component_flags_and_restructured_components(case)
+            and set(v["detail"].get("tables") or ()) <= {"glyf", "loca", "head"}):
+        # the TrueType component flags are read from the glyph of the SOURCE font (by component
+        # index + identifier); a filter that rebuilds components (flattening re-adds every
+        # component without its identifier) changes what an in-place compile finds there
+        return "inplace_changes_component_flags_when_a_filter_rebuilds_components"
     return None
+
+
+def _component_flags_and_restructured_components(case):
+    gl = (case.get("ufo") or {}).get("glyphs") or []
+    flagged = any("public.objectLibs" in (g.get("lib") or {}) and any(c.get("id") for c in g["components"])
+                  for g in gl)
+    if not flagged:
+        return False
+    if (case.get("opts") or {}).get("flattenComponents"):
+        return True
+    lf = ((case.get("ufo") or {}).get("lib") or {}).get("com.github.googlei18n.ufo2ft.filters") or []
+    names = {f.get("name") for f in lf} | {
+        d.get("class") for d in (case.get("opts_objects") or {}).get("filters") or []}
+    return bool(names & {"flattenComponents", "FlattenComponentsFilter", "decomposeTransformedComponents",
+                         "DecomposeTransformedComponentsFilter"})
 
 
 def _user_cu2qu_that_remembers(case):
